@@ -118,6 +118,7 @@ man = man_page('prog.1')
 man2 = man_page('doc/tool.1')
 install(exe, st, hdr, hdir, hnone, hone, man, man2)
 install(generic_file('data.txt'), directory=Path('share/p data', InstallRoot.prefix))
+install(directory('data dir', include='**'), directory=Path('share/p data/tree', InstallRoot.prefix))
 """
 
 CONFIGS = {
@@ -278,7 +279,7 @@ class InstallRun(Bounded):
                                  True: 'int f(void); int h(void); int main(void) { return f() - 7 + h(); }\n',
                                  'only': 'int h(void); int main(void) { return h(); }\n'}[prebuilt])
             for f in ('api.h', 'include/a.hpp', 'include/deep/b.hpp', 'include/notes.txt', 'include2/readme.txt',
-                      'include3/only.h', 'data.txt'):
+                      'include3/only.h', 'data.txt', 'data dir/top.txt', 'data dir/sub/deep.txt'):
                 _w(src + '/' + f, f)
             _w(src + '/prog.1', '.TH prog 1\n')
             _w(src + '/doc/tool.1', '.TH tool 1\n')
@@ -335,7 +336,8 @@ class InstallRun(Bounded):
                 return self.fail(case, raw, 'run_time_dependency_installed_under_libdir', found=sorted(found), libdir=dirs['lib'])
             want = {dirs['bin'] + '/prog', dirs['lib'] + '/libstlib.a', dirs['include'] + '/api.h',
                     dirs['include'] + '/a.hpp', dirs['include'] + '/deep/b.hpp', dirs['include'] + '/only.h',
-                    prefix + '/share/p data/data.txt'} | set(libs)
+                    prefix + '/share/p data/data.txt', prefix + '/share/p data/tree/top.txt',
+                    prefix + '/share/p data/tree/sub/deep.txt'} | set(libs)
             # manual pages go to man<section>/ by their base name (compressed or not), whatever directory they came from
             mans = {f for f in found if f.startswith(dirs['man'] + '/man1/prog.1') or f.startswith(dirs['man'] + '/man1/tool.1')}
             pre = {f for f in found if f.endswith('/libpre.so')}
